@@ -130,7 +130,8 @@ def tlc(spec, cfg=None, workers=8, simulate=None, depth=None, env=None, timeout=
     os.makedirs(os.path.join(WORK, "tlc"), exist_ok=True)
     meta = tempfile.mkdtemp(prefix="meta.", dir=os.path.join(WORK, "tlc"))
     # SerialGC + fixed heap: ParallelGC/G1 with adaptive sizing burn minutes of sys time here
-    jopts = ["-Xss256m", "-Xms" + heap, "-Xmx" + heap, "-XX:+UseSerialGC"]
+    # java.io.tmpdir: TLC unpacks the standard modules into a fresh tlc-* directory there and never removes it
+    jopts = ["-Xss256m", "-Xms" + heap, "-Xmx" + heap, "-XX:+UseSerialGC", "-Djava.io.tmpdir=" + meta]
     if deque:
         jopts.append("-Dtlc2.tool.queue.IStateQueue=StateDeque")
     cmd = ["java"] + jopts + ["-cp", TLAJAR + ":" + CMJAR, "tlc2.TLC", "-workers", str(workers),
